@@ -133,6 +133,148 @@ Proof.
     split; [intros; discriminate|]. intros _ _ _. apply Hchange. exact W'.
 Qed.
 
+(* ---------- escape_ID: the identifier setter for every metabolite, reaction and gene of the model ---------- *)
+Lemma set_id_frame : forall c x i s,
+  let '(s', r) := set_id c x i s in
+  lst s' = lst s /\ omod s' = omod s /\ members s' = members s /\ kind s' = kind s /\ sto s' = sto s /\
+  rgenes s' = rgenes s /\ mback s' = mback s /\ gback s' = gback s /\
+  (forall c' x', (c', x') <> (c, x) -> oid s' c' x' = oid s c' x') /\
+  (r = Ok -> oid s' c x = i) /\ (r <> Ok -> s' = s).
+Proof.
+  intros c x i s. unfold set_id.
+  assert (Hc : let s' := set_oid c x i s in
+     lst s' = lst s /\ omod s' = omod s /\ members s' = members s /\ kind s' = kind s /\ sto s' = sto s /\
+     rgenes s' = rgenes s /\ mback s' = mback s /\ gback s' = gback s /\
+     (forall c' x', (c', x') <> (c, x) -> oid s' c' x' = oid s c' x') /\ (Ok = Ok -> oid s' c x = i) /\ (Ok <> Ok -> s' = s)).
+  { cbn zeta. repeat (split; [reflexivity|]). split; [|split].
+    - intros c' x' Hne. sproj. unfold updc. destruct (cls_eqb c' c) eqn:Ec; [|reflexivity].
+      apply cls_eqb_eq in Ec. subst c'. apply updz_other. intros Ex. apply Hne. rewrite Ex. reflexivity.
+    - intros _. sproj. rewrite updc_same, updz_same. reflexivity.
+    - intros H. exfalso. apply H. reflexivity. }
+  assert (Hr : forall r, r <> Ok ->
+     lst s = lst s /\ omod s = omod s /\ members s = members s /\ kind s = kind s /\ sto s = sto s /\
+     rgenes s = rgenes s /\ mback s = mback s /\ gback s = gback s /\
+     (forall c' x', (c', x') <> (c, x) -> oid s c' x' = oid s c' x') /\ (r = Ok -> oid s c x = i) /\ (r <> Ok -> s = s)).
+  { intros r Hne. repeat split; try reflexivity; intros; try reflexivity; contradiction. }
+  destruct (Z.eqb_spec i (oid s c x)) as [E0|E0]; cbv beta iota zeta.
+  { repeat split; try reflexivity; intros; try reflexivity. symmetry. exact E0. }
+  destruct (i =? id_nonstr); cbv beta iota zeta; [apply Hr; discriminate|].
+  destruct (omod s c x); cbv beta iota zeta; [|exact Hc].
+  destruct (has_id s c i); cbv beta iota zeta; [apply Hr; discriminate|].
+  destruct (_ && bad_name i); cbv beta iota zeta; [apply Hr; discriminate|exact Hc].
+Qed.
+
+Lemma escape_list_spec : forall f c l s, NoDup l ->
+  let '(s', r) := escape_list f c l s in
+  lst s' = lst s /\ omod s' = omod s /\ members s' = members s /\ kind s' = kind s /\ sto s' = sto s /\
+  rgenes s' = rgenes s /\ mback s' = mback s /\ gback s' = gback s /\
+  (forall c' x', c' <> c \/ ~ In x' l -> oid s' c' x' = oid s c' x') /\
+  (r = Ok -> forall x, In x l -> oid s' c x = f (oid s c x)).
+Proof.
+  intros f c l. induction l as [|x l IH]; intros s Hn; cbn [escape_list].
+  - repeat split; try reflexivity; intros; try reflexivity; contradiction.
+  - inversion Hn as [|? ? Hx Hl]; subst.
+    pose proof (set_id_frame c x (f (oid s c x)) s) as F.
+    destruct (set_id c x (f (oid s c x)) s) as [s1 r1].
+    destruct F as [F1 [F2 [F3 [F4 [F5 [F6 [F7 [F8 [F9 [F10 F11]]]]]]]]]].
+    assert (Hfr : forall c' x', c' <> c \/ ~ In x' (x :: l) -> oid s1 c' x' = oid s c' x').
+    { intros c' x' H. apply F9. intros E. inversion E; subst. destruct H as [H|H]; [apply H; reflexivity|apply H; left; reflexivity]. }
+    destruct r1.
+    + specialize (IH s1 Hl). destruct (escape_list f c l s1) as [s' r].
+      destruct IH as [I1 [I2 [I3 [I4 [I5 [I6 [I7 [I8 [I9 I10]]]]]]]]].
+      split; [congruence|]. split; [congruence|]. split; [congruence|]. split; [congruence|]. split; [congruence|].
+      split; [congruence|]. split; [congruence|]. split; [congruence|]. split.
+      * intros c' x' H. rewrite I9; [apply Hfr; exact H|]. destruct H as [H|H]; [left; exact H|right; intros Hi; apply H; right; exact Hi].
+      * intros Er y [Hy|Hy].
+        { subst y. rewrite I9; [apply F10; reflexivity|right; exact Hx]. }
+        { rewrite (I10 Er y Hy). f_equal. apply F9. intros E. inversion E; subst. contradiction. }
+    + repeat (split; [assumption|]). intros H; discriminate.
+    + repeat (split; [assumption|]). intros H; discriminate.
+    + repeat (split; [assumption|]). intros H; discriminate.
+    + repeat (split; [assumption|]). intros H; discriminate.
+Qed.
+
+Theorem escape_ids_effect : forall tbl s, Inv s ->
+  let f := fun i => assoc i tbl i in
+  let '(s', r) := escape_ids tbl s in
+  (* only identifiers of listed metabolites, reactions and genes change (and the back references are rebuilt);
+     the DictLists - hence every position -, groups and their members, stoichiometry stay *)
+  lst s' = lst s /\ omod s' = omod s /\ members s' = members s /\ kind s' = kind s /\ sto s' = sto s /\ rgenes s' = rgenes s /\
+  (forall x, oid s' CP x = oid s CP x) /\ (forall c x, ~ In x (lst s c) -> oid s' c x = oid s c x) /\
+  (* when no assignment is refused, every listed object has the escaped identifier and is found under it *)
+  (r = Ok -> forall c x, c <> CP -> In x (lst s c) -> oid s' c x = f (oid s c x) /\ lookup s' c (f (oid s c x)) = Some x) /\
+  Inv s'.
+Proof.
+  intros tbl s W. cbn zeta. pose proof (escape_ids_Inv tbl s W) as W'. unfold escape_ids in *.
+  set (f := fun i => assoc i tbl i) in *.
+  assert (N : forall c s0, Inv s0 -> NoDup (lst s0 c)) by (intros c s0 H; apply (NoDup_map_inv' (oid s0 c)), (w_ids _ _ H)).
+  pose proof (escape_list_Inv f CM (lst s CM) s W) as W1.
+  pose proof (escape_list_spec f CM (lst s CM) s (N CM s W)) as S1.
+  destruct (escape_list f CM (lst s CM) s) as [s1 r1]. cbn [fst] in W1.
+  destruct S1 as [A1 [A2 [A3 [A4 [A5 [A6 [_ [_ [A9 A10]]]]]]]]].
+  assert (Stop1 : forall r, r <> Ok -> lst s1 = lst s /\ omod s1 = omod s /\ members s1 = members s /\ kind s1 = kind s /\ sto s1 = sto s /\
+     rgenes s1 = rgenes s /\ (forall x, oid s1 CP x = oid s CP x) /\ (forall c x, ~ In x (lst s c) -> oid s1 c x = oid s c x) /\
+     (r = Ok -> forall c x, c <> CP -> In x (lst s c) -> oid s1 c x = f (oid s c x) /\ lookup s1 c (f (oid s c x)) = Some x) /\ Inv s1).
+  { intros r Hr. repeat (split; [assumption|]). split; [intros x; apply A9; left; discriminate|].
+    split; [|split; [intros E; contradiction|exact W1]].
+    intros c x Hx. apply A9. destruct c; try (left; discriminate). right. exact Hx. }
+  destruct r1; try (apply Stop1; discriminate). clear Stop1.
+  pose proof (escape_list_Inv f CR (lst s1 CR) s1 W1) as W2.
+  pose proof (escape_list_spec f CR (lst s1 CR) s1 (N CR s1 W1)) as S2.
+  destruct (escape_list f CR (lst s1 CR) s1) as [s2 r2]. cbn [fst] in W2.
+  destruct S2 as [B1 [B2 [B3 [B4 [B5 [B6 [_ [_ [B9 B10]]]]]]]]].
+  assert (L1 : forall c, lst s1 c = lst s c) by (intros c; rewrite A1; reflexivity).
+  assert (L2 : forall c, lst s2 c = lst s c) by (intros c; rewrite B1; apply L1).
+  assert (Stop2 : forall r, r <> Ok -> lst s2 = lst s /\ omod s2 = omod s /\ members s2 = members s /\ kind s2 = kind s /\ sto s2 = sto s /\
+     rgenes s2 = rgenes s /\ (forall x, oid s2 CP x = oid s CP x) /\ (forall c x, ~ In x (lst s c) -> oid s2 c x = oid s c x) /\
+     (r = Ok -> forall c x, c <> CP -> In x (lst s c) -> oid s2 c x = f (oid s c x) /\ lookup s2 c (f (oid s c x)) = Some x) /\ Inv s2).
+  { intros r Hr. split; [congruence|]. split; [congruence|]. split; [congruence|]. split; [congruence|]. split; [congruence|].
+    split; [congruence|]. split; [intros x; rewrite B9; [apply A9|]; left; discriminate|].
+    split; [|split; [intros E; contradiction|exact W2]].
+    intros c x Hx. rewrite B9.
+    - apply A9. destruct c; try (left; discriminate). right. exact Hx.
+    - destruct c; try (left; discriminate). right. rewrite L1. exact Hx. }
+  destruct r2; try (apply Stop2; discriminate). clear Stop2.
+  pose proof (escape_list_Inv f CG (lst s2 CG) s2 W2) as W3.
+  pose proof (escape_list_spec f CG (lst s2 CG) s2 (N CG s2 W2)) as S3.
+  destruct (escape_list f CG (lst s2 CG) s2) as [s3 r3]. cbn [fst] in W3.
+  destruct S3 as [C1 [C2 [C3 [C4 [C5 [C6 [_ [_ [C9 C10]]]]]]]]].
+  assert (L3 : forall c, lst s3 c = lst s c) by (intros c; rewrite C1; apply L2).
+  assert (Frame : lst s3 = lst s /\ omod s3 = omod s /\ members s3 = members s /\ kind s3 = kind s /\ sto s3 = sto s /\
+     rgenes s3 = rgenes s /\ (forall x, oid s3 CP x = oid s CP x) /\ (forall c x, ~ In x (lst s c) -> oid s3 c x = oid s c x)).
+  { split; [congruence|]. split; [congruence|]. split; [congruence|]. split; [congruence|]. split; [congruence|].
+    split; [congruence|]. split.
+    - intros x. rewrite C9; [|left; discriminate]. rewrite B9; [apply A9|]; left; discriminate.
+    - intros c x Hx. rewrite C9; [rewrite B9; [apply A9|]|].
+      + destruct c; try (left; discriminate). right. exact Hx.
+      + destruct c; try (left; discriminate). right. rewrite L1. exact Hx.
+      + destruct c; try (left; discriminate). right. rewrite L2. exact Hx. }
+  destruct Frame as [D1 [D2 [D3 [D4 [D5 [D6 [D7 D8]]]]]]].
+  destruct r3.
+  - (* nothing refused *)
+    change (lst (repair_rel s3)) with (lst s3). change (omod (repair_rel s3)) with (omod s3).
+    change (members (repair_rel s3)) with (members s3). change (kind (repair_rel s3)) with (kind s3).
+    change (sto (repair_rel s3)) with (sto s3). change (rgenes (repair_rel s3)) with (rgenes s3).
+    repeat (split; [assumption|]). split; [|exact W'].
+    intros _ c x Hc Hx.
+    assert (E : oid s3 c x = f (oid s c x)).
+    { destruct c; [| | |contradiction].
+      - (* reaction: renamed in the second loop *)
+        rewrite C9; [|left; discriminate]. rewrite (B10 eq_refl x); [|rewrite L1; exact Hx]. f_equal. apply A9. left. discriminate.
+      - rewrite C9; [|left; discriminate]. rewrite B9; [|left; discriminate]. apply (A10 eq_refl x Hx).
+      - rewrite (C10 eq_refl x); [|rewrite L2; exact Hx]. f_equal. rewrite B9; [|left; discriminate]. apply A9. left. discriminate. }
+    split; [exact E|]. change (lookup s3 c (f (oid s c x)) = Some x).
+    rewrite <- E. apply lookup_self; [apply (w_ids _ _ W3)|rewrite L3; exact Hx].
+  - repeat (split; [assumption|]). split; [intros E; discriminate|exact W3].
+  - repeat (split; [assumption|]). split; [intros E; discriminate|exact W3].
+  - repeat (split; [assumption|]). split; [intros E; discriminate|exact W3].
+  - repeat (split; [assumption|]). split; [intros E; discriminate|exact W3].
+Qed.
+
+Theorem set_bounds_effect : forall r lb ub s,
+  fst (set_bounds r lb ub s) = s /\ snd (set_bounds r lb ub s) = if ub <? lb then RaiseValueError else Ok.
+Proof. intros. unfold set_bounds. destruct (ub <? lb); split; reflexivity. Qed.
+
 (* ---------- Model.remove_groups (one group; a list is the loop over it) ---------- *)
 Theorem remove_group_effect : forall g s, Inv s ->
   let '(s', r) := remove_groups vfix [g] s in
